@@ -66,14 +66,26 @@ def make_arc(svg, c):
     return arc, ref, start, end
 
 
-VIA = ["direct", "mirrored"]
+VIA = ["direct", "mirrored", "endpoint", "endpoint-negrx", "endpoint-negry"]
 
 
 def make_arc_via(svg, c):
     """the arc of c, built directly or as the mirror image (x -> -x) of the mirrored arc: the same ellipse arc, but the
     object went through a reflection (which is how arcs with a left-handed pair of radius points come to exist)"""
-    if c.get("via", "direct") == "direct":
+    via = c.get("via", "direct")
+    if via == "direct":
         return make_arc(svg, c)
+    if via.startswith("endpoint"):
+        # the same arc through the SVG endpoint constructor (start, rx, ry, rotation, large-arc, sweep, end), optionally with
+        # one radius written negative (its absolute value counts); only for extents the endpoint form can express
+        arc0, ref, start, end = make_arc(svg, c)
+        ext = abs(c["dth"])
+        if not (1e-6 < ext < 2 * math.pi - 1e-6) or abs(ext - math.pi) < 1e-6:
+            return arc0, ref, start, end
+        rx = -c["rx"] if via == "endpoint-negrx" else c["rx"]
+        ry = -c["ry"] if via == "endpoint-negry" else c["ry"]
+        arc = svg.Arc(start, rx, ry, c["rot"], int(ext > math.pi), int(c["dth"] > 0), end)
+        return arc, ref, (arc.start.x, arc.start.y), (arc.end.x, arc.end.y)
     cm = dict(c, cx=-c["cx"], rot=180.0 - c["rot"], th0=-c["th0"], dth=-c["dth"])
     arc_m, _, _, _ = make_arc(svg, cm)
     arc = arc_m * svg.Matrix(-1, 0, 0, 1, 0, 0)
@@ -143,7 +155,8 @@ class Arcs(SubCheck):
 
     def __init__(self, svg, tier):
         self.svg = svg
-        self.p = Product(RATIO, ROT, TH0, EXT, [1, -1], MAGS if tier == "thorough" else [1.0, 1e5], VIA)
+        via = VIA if tier == "thorough" else ["direct", "mirrored", "endpoint-negrx"]
+        self.p = Product(RATIO, ROT, TH0, EXT, [1, -1], MAGS if tier == "thorough" else [1.0, 1e5], via)
         self.bounds = dict(ratios=RATIO, rotations=ROT, starts=len(TH0), extents=len(EXT), subdivisions=[str(n) for n in NSUB],
                            via=VIA)
 
